@@ -253,6 +253,18 @@ def extra_configs(prop, tier, seed):
                          store_best_only=rng.random() < 0.3)
                 c['lb'], c['ub'] = runlevel.make_box(rng, 'wide', c['n_vars'])
                 extra.append(c)
+    if prop in ('C03', 'C04', 'C15'):
+        # optimizers whose loop does arithmetic on the iteration count (schedules): iteration counts at which a rounded
+        # quotient / arange length / product goes wrong by one ulp or one element
+        pool = runlevel.gen_configs('thorough', seed + 171)
+        counts = {'IHS': [49, 98, 103, 107, 196], 'WCA': [3, 6, 12, 24, 41, 48, 53], 'FA': [7, 49, 98], 'SA': [7, 49], 'AIWPSO': [7, 49]}
+        for kind, ns in counts.items():
+            base = next((c for c in pool if c['kind'] == kind and c['space'] == 'search'), None)
+            if base is None:
+                continue
+            for n_ in (ns if tier == 'thorough' else ns[:3] if kind in ('IHS', 'WCA') else ns[:1]):
+                extra.append(dict(base, hook='observer', adv=0.0, n_iter=n_, n_agents=3 if kind != 'WCA' else 4, n_vars=1, n_dims=1,
+                                  lb=[-2.0], ub=[3.0], box='wide', objective='positive', hyper={}, store_best_only=(n_ % 2 == 0)))
     if prop == 'C15':
         # AIWPSO whose initial inertia weight lies outside [w_min, w_max] on swarms that never succeed (one particle, flat
         # objective): the first adaptation step brings w into the range whatever the success count
